@@ -7,15 +7,21 @@ class Untranslatable(Exception):
     """the case uses something the translator does not handle: counted, not an error"""
 
 
+def _safe(c):
+    return 32 <= ord(c) <= 126 or c in "\n\t"
+
+
 def gstr(s):
-    """Coq string literal for a python str whose characters are bytes (latin-1)."""
-    if all(32 <= ord(c) <= 126 for c in s):
-        return '"' + s.replace('"', '""') + '"'
-    # explicit constructors; three-digit decimal character notation needs char_scope
-    t = "EmptyString"
-    for c in reversed(s):
-        t = '(String "%03d"%%char %s)' % (ord(c), t)
-    return t
+    """Coq string term for a python str whose characters are bytes (latin-1).  Printable ASCII, newline and tab go into
+    string literals; any other byte is an explicit `String "ddd"%char` cell between literals (nesting depth = number of such bytes)."""
+    k = 0
+    while k < len(s) and _safe(s[k]):
+        k += 1
+    lit = '"' + s[:k].replace('"', '""') + '"'
+    if k == len(s):
+        return lit
+    rest = '(String "%03d"%%char %s)' % (ord(s[k]), gstr(s[k + 1:]))
+    return rest if k == 0 else "(KP.cat %s %s)" % (lit, rest)
 
 
 def gnum(tok):
@@ -128,3 +134,31 @@ def gsys(x):
         outs.append(gpair(gstr(o[0]), gexpr(o[1])))
     return ("{| s_inputs := %s; s_states := %s; s_outputs := %s; s_bads := %s; s_constraints := %s |}"
             % (exprs("inputs"), glist(states), glist(outs), exprs("bads"), exprs("constraints")))
+
+
+# Gallina printer of systems in the pipe syntax, shared by the modules that print systems (put inside the module's own Module)
+PSYS = r"""
+Definition pstate (st : state) : string :=
+  par (["state"; pexpr (st_sym st)]
+       ++ (match st_init st with Some i => [par ["init"; pexpr i]] | None => [] end)
+       ++ (match st_next st with Some n => [par ["next"; pexpr n]] | None => [] end))%list.
+Definition psys (s : sys) : string :=
+  par ["sys";
+       par ("inputs" :: map pexpr (s_inputs s));
+       par ("states" :: map pstate (s_states s));
+       par ("outputs" :: map (fun o => par [quoted (fst o); pexpr (snd o)]) (s_outputs s));
+       par ("bads" :: map pexpr (s_bads s));
+       par ("constraints" :: map pexpr (s_constraints s))].
+(* does the expanded tree fit into [b] nodes?  remaining budget, None = it does not *)
+Fixpoint within (fuel : nat) (e : expr) (b : N) : option N :=
+  match fuel with
+  | O => None
+  | S f => if N.eqb b 0 then None
+           else fold_left (fun r c => match r with Some x => within f c x | None => None end) (children e) (Some (b - 1)%N)
+  end.
+Definition psys_bounded (budget : N) (s : sys) : string :=
+  match fold_left (fun r c => match r with Some x => within (S (N.to_nat budget)) c x | None => None end) (all_exprs s) (Some budget) with
+  | Some _ => psys s
+  | None => "(big)"
+  end.
+"""
